@@ -5,16 +5,16 @@ from common import run_lines
 META = {
     "text": "Lean theorems over a model of a stream read operation of io.c (buffer sizing, read() outcome, deliver_data flags, stream-handler result switch, dispose) "
             "state for every legal sequence of kernel outcomes: delivered data concatenated = bytes consumed, at most the requested length, no delivery above the high-water mark, "
-            "non-final deliveries at least the low-water mark, done exactly once and last, never a zero-length read. The check feeds the outcome sequences the kernel really "
+            "non-final deliveries at least the low-water mark, done exactly once and last, never a zero-length read; and over a model of a stream write (buffer selection over the regions of the data object, short writes, low-water filter, trimming): the bytes handed to the kernel are in order and each once a prefix of the submitted data, every data object passed to the handler is exactly the unwritten remainder, done once and last, never a zero-length write. The check feeds the outcome sequences the kernel really "
             "produced on pipes (short reads, EAGAIN, EOF, staged arrival) to the model and compares the requested length of every read() and every handler call. "
             "Submission order, barrier, close -> ECANCELED, cleanup exactly once after all handlers, handler non-re-entrance and write conservation under short writes are "
             "observed by an oracle on the real library.",
-    "note": "Partial: the write path, the channel orchestration (queues, groups, barriers) and disk/random-access scheduling are not modelled; those clauses are covered by "
-            "the L-api oracle only (sampling). Trusted: Lean kernel, read()/write() interposition, the harness.",
+    "note": "Partial: the channel orchestration (queues, groups, barriers, close) and disk / random-access scheduling are not modelled; those clauses are covered by "
+            "the L-api oracle only (sampling). The write path is modelled (IoW) and tied by its own differential run. Trusted: Lean kernel, read()/write() interposition, the harness.",
     "technique": "Lean 4 proof (invariant over all outcome sequences, case analysis by simp/omega) + replay of real read() outcome sequences + L-api oracle with short-write injection",
 }
 
-THEOREMS = ["C14.read_conservation", "C14.read_at_most_length", "C14.step_spec", "C14.read_len_pos"]
+THEOREMS = ["C14.read_conservation", "C14.read_at_most_length", "C14.step_spec", "C14.read_len_pos", "C14.write_conservation", "C14.write_len_pos"]
 
 
 def gen_lines(r, n):
@@ -135,6 +135,52 @@ def run(ctx):
         ctx.cov["layers"]["L-fn io read"].update({"read_calls": reads, "eagain_outcomes": eagain})
         for l, rr, m in diffs[:3]:
             ctx.broken("L-fn correspondence io.c vs IoP (scenario `%s`: real `%s`, model `%s`)" % (l[:120], rr[:200], m[:200]))
+    # write path: L-fn differential of a stream write (buffer selection over regions, short writes, water marks) against IoW
+    hw = ctx.harness("iow", extra=["-ldl"])
+    rw = ctx.rng.fork("iow")
+    wlines = []
+    for _ in range(3000 if ctx.thorough else 400):
+        pages = rw.choice([256, 256, 1, 1, 2])
+        nreg = 1 + rw.below(8)
+        regs = [rw.choice([1, 6, 37, 300, 4096, 4097, 5000, 9000, 1 + rw.below(12000)]) for _ in range(nreg)]
+        while sum(regs) > 200000:
+            regs.pop()
+        low = rw.choice([-1, -1, 8, 100, 5000, rw.below(9000)])
+        high = rw.choice([-1, -1, 10, 64, 1000, 4096, 1 + rw.below(9000)])
+        caps = [rw.choice([1, 3, 50, 1000, 4095, 10 ** 9, 1 + rw.below(6000)]) for _ in range(rw.below(10))]
+        if (0 <= high <= 64) and sum(regs) > 4000:       # keep the number of write() calls moderate
+            regs = [r % 700 + 1 for r in regs]
+        wlines.append("W %d %d %d %s | %s" % (low, high, pages, ",".join(map(str, regs)), " ".join(map(str, caps))))
+    wreal, _, _ = run_lines(hw, wlines, timeout=400)
+    if len(wreal) < len(wlines) or any(o.startswith("STUCK") for o in wreal):
+        i = min(len(wreal), len(wlines) - 1)
+        ctx.violation("a dispatch_io_write never delivered done: `%s`" % wlines[i], {"line": wlines[i]}, signature="io:write:stuck")
+        wlines = wlines[:len(wreal)]
+    for l, o in zip(wlines, wreal):
+        if " fd=BAD" in o:
+            ctx.violation("dispatch_io_write: the bytes that arrived at the descriptor are not the submitted bytes in order (first difference at offset %s; scenario `%s`)"
+                          % (o.split("fd=BAD:")[1], l.strip()[:160]), {"line": l, "real": o[:1500]}, signature="io:write:bytes")
+            break
+        f = l.split("|")[0].split(); total = sum(int(x) for x in f[4].split(","))
+        calls = o.split(" calls=")[1].split(" fd=")[0].split("|")
+        last = calls[-1].split(":")
+        arrived = int(o.split(" fd=")[1])
+        reported = 0 if last[1] == "-1" else int(last[1])
+        if last[0] == "1" and arrived + reported != total:
+            ctx.violation("dispatch_io_write: bytes at the descriptor (%d) + reported unwritten (%d) != submitted (%d) (scenario `%s`)" % (arrived, reported, total, l.strip()[:160]),
+                          {"line": l, "real": o[:1500]}, signature="io:write:conservation")
+            break
+    if drv is not None and wlines:
+        dl = []
+        for l, o in zip(wlines, wreal):
+            f = l.split("|")[0].split()
+            rets = [x.split(":")[1] for x in o.split(" ")[0][7:].split(",") if x]
+            dl.append("IOW %d %s %s %s %s" % (int(f[3]) * 4096, f[1], f[2], f[4], " ".join(rets)))
+        wmodel, _, _ = run_lines(drv, dl)
+        wcmp = [o.split(" fd=")[0] for o in wreal]
+        diffs = ctx.diff_streams("L-fn io write", wlines, wcmp, wmodel, nontrivial=lambda l, rr: rr.count(",") > 0)
+        for l, rr, m in diffs[:3]:
+            ctx.broken("L-fn correspondence io.c (write) vs IoW (scenario `%s`: real `%s`, model `%s`)" % (l[:120], rr[:200], m[:200]))
     ho = ctx.harness("c14_io", extra=["-ldl"])
     runs = 8 if ctx.thorough else 3
     procs = [subprocess.Popen([ho, str(ctx.seed * 100 + s), "60" if ctx.thorough else "30"], stdout=subprocess.PIPE, text=True) for s in range(runs)]
